@@ -681,6 +681,68 @@ pub fn run_c03(ctx: &Ctx) -> i32 {
             out.distinct.insert(case.key());
         }
     });
+    // a caller-driven loop (FrameBuf + Context + frame-level encodes) that refreshes a provisional
+    // STREAMINFO after every block: md5_digest() / total_samples() are asked for BETWEEN the fills;
+    // what is stated after the last block must be the MD5 / total of everything delivered, for
+    // integer and for byte delivery alike
+    let n = ctx.tier.pick(600, 20_000);
+    run_cases(ctx, "callerloop", n, &mut out, |idx, out| {
+        use flacenc::source::{Context, Fill, FrameBuf};
+        let mut rng = Rng::for_case(ctx.seed, "C03.callerloop", idx);
+        let case = gen_case(&mut rng, &Limits { max_samples: 4000, max_blocks: 6, max_block_size: 512, ..Limits::default() });
+        let a = &case.audio;
+        let bytes = idx % 2 == 1;
+        let bps_bytes = (a.bps + 7) / 8;
+        let r = crate::common::catch(|| -> Result<(Vec<[u8; 16]>, usize), String> {
+            let mut fb = FrameBuf::with_size(a.channels, case.block).map_err(|e| format!("{e}"))?;
+            let mut cx = Context::new(a.bps, a.channels);
+            let mut digests = vec![];
+            let mut pos = 0;
+            while pos < a.frames() {
+                let n = case.block.min(a.frames() - pos);
+                let chunk = &a.samples[pos * a.channels..(pos + n) * a.channels];
+                if bytes {
+                    (&mut fb, &mut cx).fill_le_bytes(&gen::to_le_bytes(chunk, bps_bytes), bps_bytes).map_err(|e| format!("{e}"))?;
+                } else {
+                    (&mut fb, &mut cx).fill_interleaved(chunk).map_err(|e| format!("{e}"))?;
+                }
+                pos += n;
+                // the provisional header
+                digests.push(cx.md5_digest());
+                if cx.total_samples() != pos {
+                    return Err(format!("after {pos} samples the context counts {}", cx.total_samples()));
+                }
+            }
+            digests.push(cx.md5_digest());
+            Ok((digests, cx.total_samples()))
+        });
+        out.evaluations += 1;
+        out.distinct.insert(case.key() ^ 0xCA11);
+        let rp = || json!({"monitor": "C03", "sub": "callerloop", "index": idx, "seed": ctx.seed, "tier": ctx.tier.name(), "case": case.describe(), "bytes": bytes});
+        match r {
+            Ok(Ok((digests, total))) => {
+                out.add("callerloop_provisional_digests", digests.len() as u64);
+                let want = refdec::md5_of_pcm(&a.samples, a.bps as u32);
+                if *digests.last().unwrap() != want {
+                    out.violation(format!("C03|md5|bps{}", a.bps), format!("caller-driven loop ({} delivery, digest asked for after every block): final MD5 {:02x?} expected {:02x?}", if bytes { "byte" } else { "integer" }, digests.last().unwrap(), want), rp());
+                }
+                if total != a.frames() {
+                    out.violation("C03|total-samples", format!("caller-driven loop: context counts {total}, {} were delivered", a.frames()), rp());
+                }
+                // every provisional digest is the digest of the prefix delivered so far
+                let mut pos = 0;
+                for d in &digests[..digests.len() - 1] {
+                    pos = (pos + case.block).min(a.frames());
+                    if *d != refdec::md5_of_pcm(&a.samples[..pos * a.channels], a.bps as u32) {
+                        out.violation(format!("C03|md5|bps{}", a.bps), format!("caller-driven loop: the digest after {pos} samples is not the MD5 of that prefix"), rp());
+                        break;
+                    }
+                }
+            }
+            Ok(Err(e)) => out.violation("C03|callerloop-refused", e, rp()),
+            Err(p) => out.violation(format!("C03|panic|{}", p.site()), p.short(), rp()),
+        }
+    });
     // streams of more than 2^32 inter-channel samples (the total-samples field has 36 bits):
     // a generating source of 8-bit mono blocks that are constant within a block (cheap to encode)
     // and differ between blocks (order-sensitive for MD5); nothing is decoded - only STREAMINFO
@@ -1133,6 +1195,55 @@ pub fn run_c09(ctx: &Ctx) -> i32 {
                 oracle_c09(ctx, "wrap32", idx, &case, &obs, out);
             }
             Err(e) => report_obs_err(ctx, "wrap32", idx, &case, &e, out),
+        }
+    });
+    // tail spikes: a cheap block (silence / tiny noise) with 1..3 full-scale samples at chosen
+    // positions - the last len % 4 (% 8, % 16) samples, the first ones, both ends - under a
+    // restricted Rice parameter, in blocks whose length is no multiple of any vector width. The
+    // candidate's true cost is megabytes of unary code; a size bookkeeping that loses the head or
+    // the remainder of a chunked sum sees a cheap candidate. (At most 3 spikes: the worst frame a
+    // broken encoder can emit here stays below 8 MiB.)
+    let nt = ctx.tier.pick(160, 4000);
+    run_cases(ctx, "tailspike", nt, &mut out, |idx, out| {
+        let mut rng = Rng::for_case(ctx.seed, "C09.tailspike", idx);
+        let bps = *rng.pick(&[24usize, 24, 20]);
+        let n = *rng.pick(&[4099usize, 4098, 4097, 1027, 1026, 1025, 4095, 67, 131, 32_767, 4096]);
+        let channels = if rng.chance(1, 4) { 2 } else { 1 };
+        let floor = *rng.pick(&[0i64, 0, 1, 3]);
+        let full = gen::smax(bps) as i64;
+        let mut samples: Vec<i32> = (0..n * channels).map(|_| if floor == 0 { 0 } else { rng.range(-floor, floor) as i32 }).collect();
+        let nspikes = 1 + rng.usize_below(3);
+        let place = rng.usize_below(4);
+        let mut spikes = vec![];
+        for k in 0..nspikes {
+            let t = match place {
+                0 => n - 1 - k,                       // the very end
+                1 => k,                                // the very start
+                2 => if k % 2 == 0 { n - 1 - k / 2 } else { k / 2 }, // both ends
+                _ => n - 1 - rng.usize_below(n.min(17)), // somewhere in the last 16
+            };
+            let ch = rng.usize_below(channels);
+            samples[t * channels + ch] = if rng.flip() { full as i32 } else { (-full - 1) as i32 };
+            spikes.push(t);
+        }
+        let mut cfg = config::Encoder::default();
+        cfg.multithread = false;
+        cfg.block_size = n;
+        cfg.subframe_coding.use_constant = rng.flip();
+        cfg.subframe_coding.use_lpc = rng.chance(1, 3);
+        cfg.subframe_coding.use_fixed = true;
+        cfg.subframe_coding.fixed.max_order = rng.usize_below(5);
+        cfg.subframe_coding.fixed.order_sel = if idx % 2 == 0 { config::OrderSel::BitCount } else { config::OrderSel::ApproxEnt { partitions: *rng.pick(&[1usize, 16, 64]) } };
+        cfg.subframe_coding.prc.max_parameter = *rng.pick(&[0usize, 0, 1, 2, 4]);
+        let case = Case { audio: Arc::new(Audio { channels, bps, rate: 44100, samples, recipe: format!("tailspike n={n} spikes at {spikes:?} floor {floor}") }), cfg, block: n, mode: FillMode::Int, hint: true };
+        match observe(&case) {
+            Ok(obs) => {
+                out.evaluations += 1;
+                out.count("sub_tailspike");
+                out.distinct.insert(case.key());
+                oracle_c09(ctx, "tailspike", idx, &case, &obs, out);
+            }
+            Err(e) => report_obs_err(ctx, "tailspike", idx, &case, &e, out),
         }
     });
     // break-even seeking: for a fixed noise shape the amplitude at which the encoder switches from
